@@ -1,7 +1,6 @@
 package checks
 
 import (
-	"errors"
 	"fmt"
 	"github.com/cybergarage/go-redis/redis"
 	"github.com/cybergarage/go-tracing/tracer"
@@ -115,6 +114,8 @@ func runC20(t *testing.T, tape *sim.Tape, tier string) *Outcome {
 		reqs = append(reqs, g.Next(i, cfg.Ill, cfg.Unk))
 		g.Only = nil
 	}
+	// half of the runs with handler errors use errors that wrap well-known sentinel errors
+	errIdentities := tape.Draw(2, "erridentities") == 1
 	inject := make([]bool, 6*len(reqs)+8)
 	for i := range inject {
 		inject[i] = cfg.ErrRate > 0 && tape.Draw(8, "inject") < cfg.ErrRate
@@ -176,7 +177,7 @@ func runC20(t *testing.T, tape *sim.Tape, tier string) *Outcome {
 		}
 		if call.Seq < len(inject) && inject[call.Seq] {
 			o.stat("handler_error_injected", 1)
-			return nil, errors.New("E" + wl.Tok(call.Seq))
+			return nil, wl.InjectedError(call.Seq, errIdentities)
 		}
 		return wl.DefaultResult(call)
 	}
